@@ -244,6 +244,14 @@ def setup():
             print("  " + line)
         return 2
     print("shim audit ok: %d observable lines identical between the plain and the instrumented (pass-through) build" % len(r1[1].splitlines()))
+    # the explorer against programs whose complete behaviour is known (independent brute-force enumeration inside)
+    st = D.build("selftest", "none", "selftest.cpp", [], shim=True, link_engine=True)
+    r3 = D.run_cmd([st], 400)
+    if r3[0] != 0:
+        print("INTERNAL-ERROR: engine self-test failed (rc=%s)" % r3[0])
+        print(r3[1][-3000:])
+        return 2
+    print(r3[1].strip().splitlines()[-1])
     print("setup ok (%.1fs)" % (time.time() - t0))
     return 0
 
